@@ -25,18 +25,21 @@ LEVEL = "model_checking"
 RULE = ("Documents are rendered from abstract trees; the oracle is the tree that was rendered (element order, keyword "
         "as written, names, description lines, tags with lines, step types with And/But/* inheritance, doc-string text "
         "after indent stripping + content type, table headings/cells/row lines, 1-based start line of every element). "
-        "(1) ALL feature shapes with <= 4 (quick) / <= 5 (thorough) blocks (feature background?, scenarios, outlines "
+        "(1) ALL feature shapes with <= 4 (quick) / <= 6 (thorough) blocks (feature background?, scenarios, outlines "
         "with 1-2 Examples, rules with own background? and scenarios/outlines), 3 (quick) / 2 (thorough) detail "
         "rotations each (names incl. empty/unicode, 0-2 description lines, 0-3 tags, step arguments none / both "
         "doc-string quote styles / tables with escaped pipes, empty cells, unicode) through parse_feature. "
-        "(2) ALL 258 step keyword sequences of length <= 3 over given/when/then/and/but/* in 10 contexts (no "
+        "(2) ALL 258 step keyword sequences of length <= 3 over given/when/then/and/but/* in 12 contexts (no "
         "background, feature background of each type, rule inheriting, rule with own / own empty background, second "
-        "scenario, as background steps, parse_steps, parse_scenario). (3) On every 16th shape + 2 rich documents: "
+        "scenario, as background steps, parse_steps, parse_scenario). (3) On every 16th (thorough: 8th) shape + 2 rich documents: "
         "every single layout deviation (indent 0/4/tab, tags on two lines, trailing comment on tag lines, no final "
         "newline, a blank / whitespace-only / comment / indented comment line inserted at EVERY position outside "
-        "doc-strings); thorough: all pairs indent x insertion and all pairs of insertion positions. (4) ALL 80 "
-        "languages x EVERY alias of EVERY keyword substituted into a 19-line document (thorough: 3 documents), via "
-        "parse_feature with '# language:' header, parse_file (file under /dev/shm) and the language= argument. "
+        "doc-strings); thorough: all pairs indent x insertion and all pairs of insertion positions. A difference that "
+        "the un-deviated rendering shows too is reported as a model difference, not as a layout one. (4) ALL 80 "
+        "languages x EVERY alias of EVERY keyword (taken from etc/gherkin/gherkin-languages.json, not from i18n.py) "
+        "substituted into a 19-line document (thorough: 3 documents), via parse_feature with '# language:' header, "
+        "parse_file (file in a mkdtemp directory under /dev/shm) and the language= argument; a difference that the "
+        "same document shows in English too is reported without the language. "
         "(5) parse_steps / parse_scenario / parse_rule / parse_tags on rendered step blocks, scenarios, rules, tag "
         "texts. (6) ModelDescriptor.describe_table / describe_docstring re-parsed. (7) E2: breadth-first search over "
         "line histories of a 20-kind well-formed-line alphabet on the real Parser (canonical abstraction of C05) for "
@@ -65,8 +68,9 @@ SCRATCH = "/dev/shm"
 
 def init_worker():
     ps.install()
-    global bp, ModelDescriptor
+    global bp, bm, ModelDescriptor
     import behave.parser as bp
+    import behave.model as bm
     from behave.model_describe import ModelDescriptor
 
 
@@ -85,23 +89,31 @@ def _parse(entry, text, language=None, via="text"):
                     res = bp.parse_file(path, language=language)
                 else:
                     res = bp.parse_feature(text, language=language)
-                if res is None:
-                    return ("ok", None)
-                return ("ok", gr.x_feature(res))
-            if entry == "steps":
-                return ("ok", [gr.x_step(s) for s in bp.parse_steps(text, language=language)])
-            if entry == "scenario":
+            elif entry == "steps":
+                res = bp.parse_steps(text, language=language)
+            elif entry == "scenario":
                 res = bp.parse_scenario(text, language=language)
-                return ("ok", None if res is None else gr.x_scenario(res))
-            if entry == "rule":
+            elif entry == "rule":
                 res = bp.parse_rule(text, language=language)
-                return ("ok", None if res is None else gr.x_rule(res))
-            raise ValueError(entry)
+            else:
+                raise ValueError(entry)
         except Exception as e:
             return ("exc", type(e).__name__, ps.exc_site(e), repr(e)[:200])
     finally:
         if tmp is not None:
             shutil.rmtree(tmp, ignore_errors=True)
+    if res is None:
+        return ("ok", None)
+    want = {"feature": bm.Feature, "steps": list, "scenario": bm.Scenario, "rule": bm.Rule}[entry]
+    if not isinstance(res, want):
+        return ("ok", {"kind": "a %s object" % type(res).__name__})
+    if entry == "feature":
+        return ("ok", gr.x_feature(res))
+    if entry == "steps":
+        return ("ok", [gr.x_step(s) for s in res])
+    if entry == "scenario":
+        return ("ok", gr.x_scenario(res))
+    return ("ok", gr.x_rule(res))
 
 
 def _shadowing_alias(lang, alias):
@@ -397,6 +409,10 @@ def check_alias(case):
         ven = compare("model", "feature", ren, _parse("feature", ren["text"]), {})
         if ven:
             v = compare("model", "feature", r, got, {})
+        elif kind:
+            for d, _ in v:
+                if d.get("clause") == "mismatch":
+                    d["keyword"] = kind         # the alias under test, not the element where the damage shows
     return {"v": v, "nt": (lang, kind, alias), "out": ("alias", kind, via, variant), "dg": got}
 
 
@@ -838,7 +854,7 @@ RICH = (True, ("S", "O2"), ((True, ("S", "O1")), (False, ("O1",))))
 def run(ctx):
     init_worker()
     thorough = not ctx.quick
-    nblocks = 5 if thorough else 4
+    nblocks = 6 if thorough else 4
     ctx.bounds = {"blocks": nblocks, "keyword_sequence_length": 3, "contexts": len(CONTEXTS),
                   "languages": len(gr.languages()), "alias_documents_per_alias": 3 if thorough else 1,
                   "layout": "pairs" if thorough else "single deviations",
@@ -863,7 +879,7 @@ def run(ctx):
     ctx.sweep(check_kwseq, ((seq, c, i + j) for j, c in enumerate(CONTEXTS) for i, seq in enumerate(seqs)), chunk=64,
               name="keyword sequences x contexts")
     # (3)
-    rep = list(gr.shapes(4))[::16]
+    rep = list(gr.shapes(4))[::8 if thorough else 16]
     lay_cases = [("doc", sh, i * 13, thorough) for i, sh in enumerate(rep)] + [("doc", RICH, 1, thorough), ("doc", RICH, 2, thorough)]
     ctx.sweep(check_layouts, lay_cases, chunk=1, name="layout deviations")
     # (4)
